@@ -583,7 +583,9 @@ class Ctx:
             "wall_s": round(time.time() - self.t0, 2),
             "violations": violations,
         }
-        d = os.path.join(ROOT, "evidence")
+        # a run against another tree than /repo (EUPS_VERIF_REPO: seeded changes, proposed fixes) is a test of the
+        # machinery: its evidence is kept apart from the evidence about /repo
+        d = os.path.join(ROOT, "evidence") if not os.environ.get("EUPS_VERIF_REPO") else os.path.join(ROOT, "build", "evidence-other-tree")
         os.makedirs(d, exist_ok=True)
         tmp = os.path.join(d, self.pid + ".json.tmp")
         with open(tmp, "w") as f:
